@@ -78,66 +78,60 @@ def run(F, rep, tier):
     reg = Registry(F)
     # ---------------- R3.1
     rep.rule('R3.1', 'tighter_than_when_before(self, other): partial_cmp(self.0, other.0) Greater -> true, Less -> false, Equal or '
-             'None (NaN) -> true iff self.1 is Left; 8 rows enumerated from MIR discriminant paths', exhaustive=True)
+             'None (NaN) -> true iff self.1 is Left; all 16 rows (ordering x both associativities) obtained by evaluating the MIR on the finite abstract input domain', exhaustive=True)
     tf = F.anchor('core::Precedence::tighter_than_when_before', ['&core::Precedence', '&core::Precedence'], 'bool')
     tb = F.body(tf)
-    pcs = [c for c in tb.calls if c.target.rsplit('::', 1)[-1] == 'partial_cmp']
-    if len(pcs) != 1 or len(tb.calls) != 1:
-        rep.error('R3.1', 'tighter_than_when_before is not table-shaped: expected exactly one call, f64::partial_cmp (found %s)' % [c.target for c in tb.calls])
-    else:
-        c = pcs[0]
-        # operand roles: self.0 vs other.0
-        def fieldroot(op):
-            out = set()
-            L = op_local(op)
-            seen = set()
-            st = [L]
-            while st:
-                x = st.pop()
-                if x in seen or x is None:
-                    continue
-                seen.add(x)
-                for (bb, j, kind, s) in tb.defs().get(x, []):
-                    if kind == 'a' and s[2][0] == 'ref':
-                        pl = s[2][2]
-                        if len(pl) > 1 and not all(p == '*' for p in pl[1:]):
-                            out.add((pl[0], tuple(str(p).split(':')[0] for p in pl[1:])))
-                        else:
-                            st.append(pl[0])
-                    elif kind == 'a' and s[2][0] == 'use':
-                        st.append(op_local(s[2][1]))
-            return out
-        r0, r1 = fieldroot(c.args[0]), fieldroot(c.args[1])
-        if r0 == {(1, ('*', 'f0'))} and r1 == {(2, ('*', 'f0'))}:
-            rep.ok('R3.1', 'operand roles', 'partial_cmp(&self.0, &other.0)')
-        else:
-            rep.viol('R3.1', tf + '|operand-roles', 'the precedence comparison is not self.0 vs other.0 (got %s vs %s)' % (sorted(r0), sorted(r1)), c.loc())
-        dest = c.dest[0]
-        choices = [
-            ((str(dest),), {'0': 'None', '1': 'Some'}),
-            ((str(dest), 'v1:Some', 'f0:0'), {'255': 'Less', '0': 'Equal', '1': 'Greater'}),
-            (('1', '*', 'f1:1'), {'0': 'Left', '1': 'Right'}),
-        ]
-        res, problems = enumerate_bool_table(tb, choices)
-        if problems:
-            rep.error('R3.1', 'not table-shaped: ' + '; '.join(sorted(set(problems))[:3]))
-        else:
-            want = {}
-            for assoc in ('Left', 'Right'):
-                want[('Some', 'Greater', assoc)] = 'true'
-                want[('Some', 'Less', assoc)] = 'false'
-                want[('Some', 'Equal', assoc)] = 'true' if assoc == 'Left' else 'false'
-                for o in ('Less', 'Equal', 'Greater'):
-                    want[('None', o, assoc)] = 'true' if assoc == 'Left' else 'false'
-            for k, w in sorted(want.items()):
-                got = res.get(k)
-                label = '%s / %s' % (k[1] if k[0] == 'Some' else 'None(NaN)', k[2])
-                if k[0] == 'None' and k[1] != 'Equal':
-                    continue
-                if got == {w}:
-                    rep.ok('R3.1', 'row ' + label, w)
+    from .minieval import Evaluator, Cell, Unsupported
+    # the function is evaluated (MIR, block by block) on the whole finite input domain: ordering of self.0 vs other.0 in
+    # {Less, Equal, Greater, unordered(NaN)} x self.1 x other.1 - 16 inputs, whatever shape the source has
+    want_fn = lambda o, a1: True if o == 'Greater' else (False if o == 'Less' else a1 == 0)
+    unsupported = None
+    for o in ('Less', 'Equal', 'Greater', None):
+        for a1 in (0, 1):
+            for a2 in (0, 1):
+                def order(x, y, o=o):
+                    if x == y:
+                        return None if o is None else 'Equal'
+                    if (x, y) == ('self.0', 'other.0'):
+                        return o
+                    return {'Less': 'Greater', 'Greater': 'Less'}.get(o, o)        # asked the other way round
+                label = '%s / self %s / other %s' % (o or 'unordered(NaN)', ('Left', 'Right')[a1], ('Left', 'Right')[a2])
+                w = want_fn(o, a1)
+                got = None
+                # library calls whose result is not determined by the abstract ordering (f64::total_cmp on equal or
+                # unordered operands) are enumerated: the row must come out right for every outcome
+                pending = [[]]
+                tried = 0
+                try:
+                    while pending and tried < 30:
+                        nd = pending.pop()
+                        tried += 1
+                        ev = Evaluator(tb, order)
+                        ev.nd = nd
+                        me = ('ref', Cell(('adt', 'Precedence', 0, [('sym', 'self.0'), ('adt', 'Assoc', a1, [])])))
+                        ot = ('ref', Cell(('adt', 'Precedence', 0, [('sym', 'other.0'), ('adt', 'Assoc', a2, [])])))
+                        r_ = ev.run([me, ot])
+                        if ev.nd_asked > len(nd):
+                            for pick in ('Less', 'Equal', 'Greater'):
+                                pending.append(nd + [pick])
+                            continue
+                        if got is None or r_ != ('bool', w):
+                            got = r_
+                        if r_ != ('bool', w):
+                            break
+                except Unsupported as e:
+                    unsupported = str(e)
+                    break
+                if got == ('bool', w):
+                    rep.ok('R3.1', 'row ' + label, str(w).lower())
                 else:
-                    rep.viol('R3.1', tf + '|row|%s' % label, 'partial_cmp = %s with a %s-associative left operator yields %s, expected %s' % (k[1] if k[0] == 'Some' else 'None', k[2], sorted(got or []), w), tb.loc(0))
+                    rep.viol('R3.1', tf + '|row|%s / %s' % (o or 'None(NaN)', ('Left', 'Right')[a1]), 'with self.0 %s other.0, a %s-associative operator on the stack and a %s-associative incoming one, tighter_than_when_before yields %s, expected %s' % ({'Less': '<', 'Equal': '==', 'Greater': '>', None: 'unordered with'}[o], ('left', 'right')[a1], ('left', 'right')[a2], got, w), tb.loc(0))
+            if unsupported:
+                break
+        if unsupported:
+            break
+    if unsupported:
+        rep.error('R3.1', 'tighter_than_when_before is outside the evaluable fragment (%s): its decision table cannot be read off' % unsupported)
 
     # ---------------- R3.2 / R3.3
     rep.rule('R3.2', 'the reduce predicate in ChainEvaluator::give is pending.last().map_or(false, |t| t.2.tighter_than_when_before(&precedence)): '
